@@ -83,7 +83,7 @@ impl<W: Write> WriteBytesExt for W {
 /// the effect of one successful `read_exact` of n bytes
 pub open spec fn rd<R: Read + ?Sized>(o: &R, f: &R, n: nat) -> bool {
     f.data() == o.data() && f.reliable() == o.reliable()
-        && o.rpos() + n <= o.data().len() && f.rpos() == o.rpos() + n && f.rfail() == o.rfail()
+        && (n > 0 ==> o.rpos() + n <= o.data().len()) && f.rpos() == o.rpos() + n && f.rfail() == o.rfail()
 }
 pub open spec fn rd_fail<R: Read + ?Sized>(o: &R, f: &R) -> bool {
     f.data() == o.data() && f.reliable() == o.reliable() && f.rfail() == o.rfail() + 1
